@@ -147,8 +147,12 @@ func Digest(data []byte, term string) string {
 }
 
 // RefDigest is Digest of Ref, with a constructor error rendered as an empty body ending in it.
-func RefDigest(alg string, wire []byte) string {
-	open, out, term := Ref(alg, wire, io.EOF)
+func RefDigest(alg string, wire []byte) string { return RefDigestFin(alg, wire, io.EOF) }
+
+// RefDigestFin is RefDigest for a body that ends in fin (io.EOF, or the framing layer's error
+// when the peer ended the message before the declared Content-Length).
+func RefDigestFin(alg string, wire []byte, fin error) string {
+	open, out, term := Ref(alg, wire, fin)
 	if open != "ok" {
 		return Digest(nil, open)
 	}
